@@ -973,7 +973,7 @@ pub fn run(prop: &'static str, tier: &'static str) -> i32 {
     let mut rep = Report::new();
     rep.count("scenarios", all.len() as u64);
     // (bounded part: at most five samples per execution - see seams::CB_CAP)
-    crate::seams::CB_CAP.store(if tier == "quick" { 1_000_000 } else { 2_500_000 }, std::sync::atomic::Ordering::Relaxed);
+    crate::seams::CB_CAP.store(if tier == "quick" { 1_000_000 } else { crate::seams::TOTAL_CB_CAP }, std::sync::atomic::Ordering::Relaxed);
     // determinism self-test: run the first history of a spread of scenarios twice
     determinism_probe(prop, &all, &mut rep);
     for kit in KITS {
